@@ -414,6 +414,11 @@ func (p *Packer) resolveExternalLink(root string, path string, hops int) (*exter
 		absTarget = filepath.Join(root, absTarget)
 	}
 
+	// An absolute target is used as written; bring it into the same clean form
+	// the walk reports paths in, otherwise the entries found below it cannot be
+	// related back to it (and end up named relative to the wrong directory).
+	absTarget = filepath.Clean(absTarget)
+
 	// Get the file info for the target.
 	info, err := os.Lstat(absTarget)
 	if err != nil {
